@@ -1317,6 +1317,8 @@ func checkMigration(c *Ctx, p *Prog, stmts []sqlStmt, rule string) {
 		}
 	}
 	c.Floor(rule, "transactional migration functions", n, 1)
+	stepReach = func(f *ssa.Function) []*ssa.Function { return reachFuncs(p, f, PkgSQLite) }
+	defer func() { stepReach = nil }()
 	// every call of a transactional migration step is dominated by a comparison that bounds
 	// the stored schema version from above (`version < 1`, or the inverted early return
 	// `if version >= 1 { return }`), whatever the functions are called
@@ -1329,6 +1331,46 @@ func checkMigration(c *Ctx, p *Prog, stmts []sqlStmt, rule string) {
 					continue
 				}
 				sc := call.Common().StaticCallee()
+				if sc == nil && isDynamicCall(call.Common()) {
+					// table-driven: `for _, m := range migrations { if version < m.version { m.apply(…) } }`
+					g, fnField, elem, ok := tableElemField(call.Common().Value)
+					if !ok {
+						continue
+					}
+					rows, ok := globalTableRows(p, g)
+					if !ok {
+						c.Unresolved(rule, FuncDisplay(f)+"/migration-table", "a migration step is called through the table "+g.Name()+", which is modified outside its initialiser: cannot tell which steps run")
+						continue
+					}
+					bounded, op, kv := boundedAboveBy(b, func(v ssa.Value) bool {
+						_, _, e2, ok := tableElemField(v)
+						return ok && e2 == elem
+					})
+					verField := -1
+					if bounded {
+						_, verField, _, _ = tableElemField(kv)
+					}
+					for _, row := range rows {
+						step := funcOfValue(row.fields[fnField])
+						if step == nil || !txFns[step] {
+							continue
+						}
+						sites++
+						okGuard := false
+						if bounded {
+							if kc, isK := stripConv(row.fields[verField]).(*ssa.Const); isK && kc.Value != nil {
+								k, _ := constant.Int64Val(constant.ToInt(kc.Value))
+								okGuard = true
+								if n, ok := insertedVersion(step); ok {
+									consistent := (op == token.LSS && k == n) || (op == token.LEQ && k == n-1) || (op == token.EQL && k < n)
+									c.Check(consistent, rule, FuncDisplay(f)+"/call:"+step.Name()+"/guard-matches-recorded-version", p.Pos(in.Pos()), fmt.Sprintf("the row's guard (version %s %d) is true exactly while version %d is not recorded", op, k, n), fmt.Sprintf("the table row's guard (version %s %d) does not match the version the step records (%d): the step is re-run on an up-to-date database or skipped on an old one", op, k, n))
+								}
+							}
+						}
+						c.Check(okGuard, rule, FuncDisplay(f)+"/call:"+step.Name()+"/version-guard", p.Pos(in.Pos()), "a migration step of the table runs only when the stored schema version is lower than the row's version", "a migration step called through the table is not guarded by the stored schema version compared with the row's own version")
+					}
+					continue
+				}
 				if sc == nil || !txFns[sc] {
 					continue
 				}
@@ -1348,6 +1390,17 @@ func checkMigration(c *Ctx, p *Prog, stmts []sqlStmt, rule string) {
 // versionBoundedAbove: some integer comparison with a constant dominates blk through the
 // branch on which the non-constant side is bounded from above (<, <=, == on that branch).
 func versionBoundedAbove(blk *ssa.BasicBlock) (bool, token.Token, int64) {
+	ok, op, kv := boundedAboveBy(blk, func(v ssa.Value) bool { _, isK := v.(*ssa.Const); return isK })
+	if !ok {
+		return false, token.ILLEGAL, 0
+	}
+	k, _ := constant.Int64Val(constant.ToInt(kv.(*ssa.Const).Value))
+	return true, op, k
+}
+
+// boundedAboveBy: like versionBoundedAbove with the bounding side chosen by isK (a
+// constant, or the version field of a table row); returns that side's value.
+func boundedAboveBy(blk *ssa.BasicBlock, isK func(ssa.Value) bool) (bool, token.Token, ssa.Value) {
 	for d := blk.Idom(); d != nil; d = d.Idom() {
 		iff, ok := d.Instrs[len(d.Instrs)-1].(*ssa.If)
 		if !ok {
@@ -1358,8 +1411,8 @@ func versionBoundedAbove(blk *ssa.BasicBlock) (bool, token.Token, int64) {
 			continue
 		}
 		op := bo.Op
-		_, lc := bo.X.(*ssa.Const)
-		_, rc := bo.Y.(*ssa.Const)
+		lc := isK(bo.X)
+		rc := isK(bo.Y)
 		if lc == rc {
 			continue
 		}
@@ -1400,18 +1453,14 @@ func versionBoundedAbove(blk *ssa.BasicBlock) (bool, token.Token, int64) {
 				}
 			}
 			if eff == token.LSS || eff == token.LEQ || eff == token.EQL {
-				var kc *ssa.Const
 				if lc {
-					kc = bo.X.(*ssa.Const)
-				} else {
-					kc = bo.Y.(*ssa.Const)
+					return true, eff, bo.X
 				}
-				k, _ := constant.Int64Val(constant.ToInt(kc.Value))
-				return true, eff, k
+				return true, eff, bo.Y
 			}
 		}
 	}
-	return false, token.ILLEGAL, 0
+	return false, token.ILLEGAL, nil
 }
 
 var insertVersionRe = regexp.MustCompile(`(?is)INSERT\s+(?:OR\s+\w+\s+)?INTO\s+schema_version\b[^;]*?VALUES\s*\(\s*(\d+)`)
@@ -1419,13 +1468,19 @@ var insertVersionRe = regexp.MustCompile(`(?is)INSERT\s+(?:OR\s+\w+\s+)?INTO\s+s
 // insertedVersion: the schema version a migration step records (literal in its INSERT).
 func insertedVersion(f *ssa.Function) (int64, bool) {
 	var found []int64
-	for _, b := range f.Blocks {
-		for _, in := range b.Instrs {
-			for _, op := range in.Operands(nil) {
-				if k, ok := (*op).(*ssa.Const); ok && k.Value != nil && k.Value.Kind() == constant.String {
-					if m := insertVersionRe.FindStringSubmatch(constant.StringVal(k.Value)); m != nil {
-						n, _ := strconv.ParseInt(m[1], 10, 64)
-						found = append(found, n)
+	fs := []*ssa.Function{f}
+	if stepReach != nil {
+		fs = stepReach(f) // the INSERT may sit in a helper the step hands its transaction to
+	}
+	for _, f := range fs {
+		for _, b := range f.Blocks {
+			for _, in := range b.Instrs {
+				for _, op := range in.Operands(nil) {
+					if k, ok := (*op).(*ssa.Const); ok && k.Value != nil && k.Value.Kind() == constant.String {
+						if m := insertVersionRe.FindStringSubmatch(constant.StringVal(k.Value)); m != nil {
+							n, _ := strconv.ParseInt(m[1], 10, 64)
+							found = append(found, n)
+						}
 					}
 				}
 			}
@@ -1436,6 +1491,10 @@ func insertedVersion(f *ssa.Function) (int64, bool) {
 	}
 	return 0, false
 }
+
+// stepReach: the functions of the store package a migration step reaches (set by the
+// migration rule, which owns the program).
+var stepReach func(f *ssa.Function) []*ssa.Function
 
 // ---------------------------------------------------------------------------
 // C14.R4 (files): the store package never deletes, truncates or renames files.
